@@ -380,7 +380,10 @@ def wl_rule(ctx, rng, case_no):
     for W in sorted({1, 2, 3, 4, 5, 6, rng.randint(1, 40), rng.randint(1, 200), 80}):
         console, legacy, ascii_only = console_for(rng, W)
         ctx.count("mon.rule")
-        g = grid(console, Rule(title, characters=characters, align=align))
+        from rich.text import Text
+        # a Text title: a str would be parsed as console markup (a separate feature, decided by C04)
+        g = grid(console, Rule(Text(title) if rng.random() < 0.7 or "[" in title or "\\" in title or ":" in title
+                               else title, characters=characters, align=align))
         wit = {"title": title, "characters": characters, "align": align, "width": W,
                "lines": [gtext(l) for l in g], "ascii_only": ascii_only}
         if len(g) != 1:
